@@ -1,5 +1,6 @@
 import Fuota.Model.Hex
 import Fuota.Model.Layout
+import Fuota.Model.Fs
 /-! Driver part for suite D3 (header codec). Stateless. -/
 open Fuota Fuota.Hex Fuota.Layout
 namespace Drv.D3
@@ -90,6 +91,18 @@ def mark (name : String) : String :=
   | _ => "bad-op"
 
 
+/-- `start_update` on a 4-slot ring whose slot 0 holds a completed, confirmed firmware with sequence number `s`:
+the sequence numbers `alloc_slotpair` writes (slots in index order; blank slots are not listed) -/
+def alloc (s : Nat) : String :=
+  let h : Header := { kind := .firmware, seq := s, size := 32, n := 8, ext := .complete, ist := .complete,
+                      boot := .successful }
+  match Fuota.Fs.choosePair 4 [some h, none, none, none] with
+  | .error _ => "r=false"
+  | .ok (a, b, sa, sb) =>
+    let one (i : Nat) : String :=
+      if i = a then s!" seq{i}={sa}" else if i = b then s!" seq{i}={sb}" else ""
+    "r=true" ++ one 1 ++ one 2 ++ one 3
+
 def step (toks : List String) : Option String :=
   match toks with
   | ["fld", c, f, w] => some (match w.toNat? with | some w => fld (codecOf c) f w | none => "bad-op")
@@ -98,6 +111,7 @@ def step (toks : List String) : Option String :=
   | ["ts", c, h] => some (ts (codecOf c) (fromHex h))
   | ["cls", _, h] => some (cls (fromHex h))
   | ["mark", n] => some (mark n)
+  | ["alloc", s] => some (match s.toNat? with | some s => alloc s | none => "bad-op")
   | _ => none
 
 end Drv.D3
